@@ -287,13 +287,64 @@ pub fn c13(ctx: &Ctx) -> Report {
 
 // ------------------------------------------------------------------------------------------- C15
 pub fn c15(ctx: &Ctx) -> Report {
-    let base = Report::new("C15", "every strict prefix (length 0..len-1, size = prefix length) of each table of a family (single/multi block, compressed, with/without filter; random configurations as in C01), which includes every sink-call boundary of the writer; the prefix is opened through the real reader and the model; judge: open fails with an error (no success, no panic); the full image must open and scan to the entries added; a prefix that is itself a complete table (inner magic, F1) is the only excluded shape and is counted; non-trivial = prefix of length >= 48; distinct by (image, length)");
+    let base = Report::new("C15", "every strict prefix (length 0..len-1, size = prefix length) of each table of a family (single/multi block, compressed, with/without filter; random configurations as in C01), which includes every sink-call boundary of the writer; the prefix is opened through the real reader and the model; judge: open fails with an error (no success, no panic); the full image must open and scan to the entries added; one table in three stores footer-shaped bytes (boundary-valued / random handles, padding, magic number) as a value, so that a prefix ends in the magic number and reaches handle validation; a prefix that is itself a complete table (F1) is the only excluded shape and is counted; non-trivial = prefix of length >= 48; distinct by (image, length)");
     let n = per_thread(ctx, 160, 3000);
     parallel(&ctx.driver, ctx.threads, ctx.seed, base, |t, d, rng, rep| {
         for i in 0..n {
-            let c = match gen_case(d, rep, rng, 12) {
-                Some(c) => c,
-                None => continue,
+            // one case in three stores FOOTER-SHAPED bytes (two handles, padding, the magic number) as a value,
+            // so that one prefix ends in the magic number and reaches the handle validation; the handles are
+            // boundary values or random, never a valid layout (that would be finding F1)
+            let c = if i % 3 == 2 {
+                let cfg = {
+                    let mut c = gen_wcfg(rng);
+                    c.snappy = false;
+                    c
+                };
+                let mut es = gen_entries(rng, &cfg.cmp, 8, 20);
+                if es.is_empty() {
+                    continue;
+                }
+                let pick = |rng: &mut Rng| -> usize {
+                    match rng.below(7) {
+                        0 => 0,
+                        1 => usize::MAX - rng.below(8),
+                        2 => (usize::MAX >> 1) + rng.below(3),
+                        3 => (1usize << 32) - 3 + rng.below(6),
+                        4 => rng.below(300),
+                        5 => 1usize << rng.range(33, 63),
+                        _ => rng.next() as usize,
+                    }
+                };
+                let mut f = vec![];
+                for h in 0..2 {
+                    if rng.chance(1, 3) {
+                        // offset + size within a few units of usize::MAX
+                        let off = rng.below(40);
+                        crate::refenc::varint(off, &mut f);
+                        crate::refenc::varint(usize::MAX - off - rng.below(7), &mut f);
+                    } else if h == 1 && rng.chance(1, 2) {
+                        crate::refenc::varint(0, &mut f);
+                        crate::refenc::varint(0, &mut f);
+                    } else {
+                        crate::refenc::varint(pick(rng), &mut f);
+                        crate::refenc::varint(pick(rng), &mut f);
+                    }
+                }
+                f.truncate(40);
+                f.resize(40, 0);
+                f.extend_from_slice(&[0x57, 0xfb, 0x80, 0x8b, 0x24, 0x75, 0x47, 0xdb]);
+                let at = rng.below(es.len());
+                es[at].1 = f;
+                rep.count("tables_with_footer_shaped_value");
+                match build_case(d, rep, &cfg, &es) {
+                    Some(c) => c,
+                    None => continue,
+                }
+            } else {
+                match gen_case(d, rep, rng, 12) {
+                    Some(c) => c,
+                    None => continue,
+                }
             };
             rep.count_n("image_bytes", c.img.len() as u64);
             for len in 0..c.img.len() {
